@@ -18,6 +18,7 @@ def main():
     if a.replay:
         sys.exit(core.run_replay(a.replay))
     seed = int(os.environ.get("VERIF_SEED", "0") or 0)
+    os.environ["PYVC_TIER"] = a.tier
     chk = core.Check(a.prop, a.tier, seed)
     try:
         mod = importlib.import_module(f"contracts.{a.prop}")
